@@ -32,6 +32,11 @@ type note struct {
 	monitor bool
 	target  string
 	reason  string
+	// optional: the recipient terminates because of the same termination (its parent died and
+	// parent exits cannot be trapped); whether it handles this notification before the exit
+	// signal reaches it is not determined
+	optional bool
+	event    int
 }
 
 type mproc struct {
@@ -56,6 +61,9 @@ type world struct {
 	gmu   sync.Mutex
 	hist  []string
 	hits  int // identities that disappeared with >= 1 relation
+	// the termination being applied right now and everybody it takes along
+	event     int
+	eventDead map[int]bool
 }
 
 func (w *world) tkey(target any) string { return fmt.Sprintf("%T:%v", target, target) }
@@ -143,7 +151,12 @@ func (w *world) gone(target any, reason string) {
 	// links first: exit signals are sent (and, being urgent, handled) before down messages
 	for _, rk := range keys {
 		c := w.procs[rk.consumer]
-		if rk.monitor || !c.alive {
+		if rk.monitor || (!c.alive && !w.eventDead[rk.consumer]) {
+			continue
+		}
+		if !c.alive {
+			// it died a moment ago, in this very cascade: it may have handled this one before
+			w.want = append(w.want, note{to: rk.consumer, monitor: false, target: k, reason: reason, optional: true, event: w.event})
 			continue
 		}
 		hit = true
@@ -152,7 +165,7 @@ func (w *world) gone(target any, reason string) {
 			cascade = append(cascade, rk.consumer)
 			continue
 		}
-		w.want = append(w.want, note{to: rk.consumer, monitor: false, target: k, reason: reason})
+		w.want = append(w.want, note{to: rk.consumer, monitor: false, target: k, reason: reason, event: w.event})
 	}
 	sort.Ints(cascade)
 	for _, c := range cascade {
@@ -160,11 +173,13 @@ func (w *world) gone(target any, reason string) {
 	}
 	for _, rk := range keys {
 		c := w.procs[rk.consumer]
-		if !rk.monitor || !c.alive {
+		if !rk.monitor || (!c.alive && !w.eventDead[rk.consumer]) {
 			continue
 		}
-		hit = true
-		w.want = append(w.want, note{to: rk.consumer, monitor: true, target: k, reason: reason})
+		if c.alive {
+			hit = true
+		}
+		w.want = append(w.want, note{to: rk.consumer, monitor: true, target: k, reason: reason, optional: !c.alive, event: w.event})
 	}
 	if hit {
 		w.hits++
@@ -178,11 +193,30 @@ func (w *world) die(j int, reason string) {
 		return
 	}
 	pj.alive = false
-	for rk := range w.rels {
-		if rk.consumer == j {
-			delete(w.rels, rk)
-		}
+	// (the relations it holds as a requester are dropped when the event is complete: until then
+	// they tell which notifications it may still have seen)
+	// everything that terminates as a consequence of one termination forms one event; what a
+	// process that dies in the event was sent by the same event may or may not have been
+	// handled by it before its own exit signal arrived (decided when the event is complete)
+	top := w.eventDead == nil
+	if top {
+		w.event++
+		w.eventDead = map[int]bool{}
+		defer func() {
+			for i := range w.want {
+				if w.want[i].event == w.event && w.eventDead[w.want[i].to] {
+					w.want[i].optional = true
+				}
+			}
+			for rk := range w.rels {
+				if !w.procs[rk.consumer].alive {
+					delete(w.rels, rk)
+				}
+			}
+			w.eventDead = nil
+		}()
 	}
+	w.eventDead[j] = true
 	// the node releases the name first, then notifies the relations on the pid
 	if pj.name != "" {
 		w.gone(gen.ProcessID{Name: pj.name, Node: w.node.Name()}, reason)
@@ -219,6 +253,19 @@ func propModel(t *rapid.T) {
 		w.spawn(-1, false, false)
 	}
 	steps := rapid.IntRange(5, 30).Draw(t, "steps")
+	// swarm: every case uses its own mixture of operation kinds, so that chains of a few
+	// particular kinds (two aliases, delete the second, link the first, terminate) are dense
+	// in some cases instead of equally unlikely in all
+	var bag []int
+	for op := 0; op <= 11; op++ {
+		wgt := rapid.SampledFrom([]int{0, 0, 1, 1, 3}).Draw(t, "weight")
+		if (op == 0 || op == 1 || op == 11) && wgt == 0 {
+			wgt = 1
+		}
+		for k := 0; k < wgt; k++ {
+			bag = append(bag, op)
+		}
+	}
 	for s := 0; s < steps; s++ {
 		live := w.live()
 		if len(live) < 2 {
@@ -232,7 +279,7 @@ func propModel(t *rapid.T) {
 				}
 			}
 		}
-		op := rapid.IntRange(0, 11).Draw(t, "op")
+		op := rapid.SampledFrom(bag).Draw(t, "op")
 		i := live[rapid.IntRange(0, len(live)-1).Draw(t, "actor")]
 		j := live[rapid.IntRange(0, len(live)-1).Draw(t, "target")]
 		pi, pj := w.procs[i], w.procs[j]
@@ -410,8 +457,18 @@ func propModel(t *rapid.T) {
 					continue
 				}
 				pid := p.pid
-				if !kit.WaitUntil(3*time.Second, func() bool { _, err := node.ProcessInfo(pid); return err != nil }) {
+				lbl := fmt.Sprintf("p%d", p.idx)
+				// gone from the process table marks only the beginning of the clean-up: the
+				// notifications have all been pushed once the terminate callback has run
+				if !kit.WaitUntil(5*time.Second, func() bool { _, err := node.ProcessInfo(pid); return err != nil && w.probe.Terminated(lbl, pid) }) {
 					t.Fatalf("p%d did not terminate although the model says so (history %v)", p.idx, append(w.hist, fmt.Sprintf("terminate(p%d,%s)", j, reason)))
+				}
+			}
+			// and the survivors have handled what they were sent before the next step may hit them
+			for _, p := range w.procs {
+				if p.alive {
+					pid := p.pid
+					kit.WaitUntil(5*time.Second, func() bool { return kit.Quiesced(node, pid) })
 				}
 			}
 			w.hist = append(w.hist, fmt.Sprintf("terminate(p%d,%s)", j, reason))
@@ -433,17 +490,52 @@ func propModel(t *rapid.T) {
 		sort.Strings(out)
 		return out
 	}
-	want := canon(w.want)
+	var must, may []note
+	for _, n := range w.want {
+		if n.optional {
+			may = append(may, n)
+		} else {
+			must = append(must, n)
+		}
+	}
+	want := canon(must)
+	optional := map[string]int{}
+	for _, x := range canon(may) {
+		optional[x]++
+	}
+	strip := func(got []string) []string {
+		// take out what the model allows but does not demand
+		left := map[string]int{}
+		for k, v := range optional {
+			left[k] = v
+		}
+		need := map[string]int{}
+		for _, x := range want {
+			need[x]++
+		}
+		var out []string
+		for _, x := range got {
+			if need[x] > 0 {
+				need[x]--
+				out = append(out, x)
+			} else if left[x] > 0 {
+				left[x]--
+			} else {
+				out = append(out, x)
+			}
+		}
+		return out
+	}
 	var got []string
 	kit.WaitUntil(10*time.Second, func() bool {
 		w.gmu.Lock()
-		got = canon(w.got)
+		got = strip(canon(w.got))
 		w.gmu.Unlock()
 		return len(got) >= len(want)
 	})
 	time.Sleep(3 * time.Millisecond)
 	w.gmu.Lock()
-	got = canon(w.got)
+	got = strip(canon(w.got))
 	w.gmu.Unlock()
 	if os.Getenv("VERIF_DEBUG") != "" {
 		fmt.Printf("DEBUG got=%v\nDEBUG want=%v\n", got, want)
